@@ -460,6 +460,7 @@ def run(chk: Check) -> int:
     phases["replay_tail"] = round(time.time() - t0, 1)
     chk.extra["distinct_nontrivial"] = len(keys)
     chk.extra["invariants"] = list(INVS)
+    chk.extra.get("tlc_runs", []).sort(key=lambda r: r["run"])
     chk.assumptions.append("annualised return is compared with its definition where 365/duration = p/q has p <= 1000 and the growth "
                            "factor stays below 1e300 (other cases: agreement of the three input forms only)")
     return chk.finish("one case = one (net-value series, sampling interval, benchmark) that TLC evaluated (state with ph = \"done\"); "
